@@ -22,6 +22,7 @@ Full statement (NOT proved, validated differentially):
     circuit.Compute (compiler.Compile (print P)) x = Mpcl.runRaw P fuel main x.
 -/
 import MpcVerif.Proofs.Mpcl
+import MpcVerif.Proofs.MpclSsa
 
 namespace Mpc
 open Mpcl
@@ -288,13 +289,32 @@ theorem C03_for_unroll_done (P : Prog) (f : Nat) (i : String) (cur hi st : Int) 
     execFor P (f + 1) i cur c hi st body env = some (.normal env) := by
   simp [execFor, hcond]
 
-/-- `for i := 0; i < 3; i++ { body }` is `body[i:=0]; body[i:=1]; body[i:=2]`. -/
-theorem C03_for_unroll_three (P : Prog) (f : Nat) (i : String) (body : List Stmt) (e0 e1 e2 e3 : Env)
-    (h0 : execB P (f + 3) body ([(i, loopVal 0)] :: e0) = some (.normal e1))
-    (h1 : execB P (f + 2) body ([(i, loopVal 1)] :: e1.tail) = some (.normal e2))
-    (h2 : execB P (f + 1) body ([(i, loopVal 2)] :: e2.tail) = some (.normal e3)) :
-    execS P (f + 5) (.for i 0 .lt 3 1 body) e0 = some (.normal e3.tail) := by
-  simp [execS, execFor, Cmp.holds, h0, h1, h2]
+/-- Loop unrolling for EVERY trip count `n`.  `Trip c hi st lo n` is the
+(decidable) statement that `for i := lo; i <c> hi; i += st` makes exactly `n`
+iterations; `iterBody` is the `n`-fold sequential composition
+`body[i:=lo]; body[i:=lo+st]; ...; body[i:=lo+(n-1)st]` (each copy in a fresh
+scope holding the loop constant, a `return` in a copy ends it).  If the
+composition is defined with fuel `f`, the `for` statement yields the same
+outcome; the loop itself consumes `n + 2` further units.  Proof: induction on
+`n`, using fuel monotonicity (`Proofs/Mpcl.lean` `for_unroll`). -/
+theorem C03_for_unroll (P : Prog) (f n : Nat) (i : String) (c : Cmp) (lo hi st : Int) (body : List Stmt)
+    (env : Env) (o : Outcome) (ht : Trip c hi st lo n = true)
+    (h : iterBody P f i st body lo n env = some o) :
+    execS P (f + n + 2) (.for i lo c hi st body) env = some o := by
+  have e : f + n + 2 = (f + n + 1) + 1 := by omega
+  rw [e]
+  simp only [execS]
+  exact for_unroll P f i c hi st body n lo env o ht h
+
+/-- Converse: whatever the `for` statement yields with some fuel is what the
+`n`-fold composition yields with that fuel; so for all sufficiently large fuel
+the two are EQUAL (both are monotone in the fuel). -/
+theorem C03_for_unroll_conv (P : Prog) (f n : Nat) (i : String) (c : Cmp) (lo hi st : Int) (body : List Stmt)
+    (env : Env) (o : Outcome) (ht : Trip c hi st lo n = true)
+    (h : execS P (f + 1) (.for i lo c hi st body) env = some o) :
+    iterBody P f i st body lo n env = some o := by
+  simp only [execS] at h
+  exact for_unroll_conv P i c hi st body n f lo env o ht h
 
 /-! Non-vacuity of the statement-level theorems: concrete instances. -/
 
@@ -313,12 +333,18 @@ example : execB [] 8 exMax [[("a", bv false (9#8)), ("b", bv false (7#8))]] =
 /-- `for i := 0; i < 3; i++ { s = s + i }` from s = 10 gives 13. -/
 def exBody : List Stmt := [.assign [⟨"s", []⟩] (.bin .add (.var "s") (.var "i"))]
 
-example : execS [] 9 (.for "i" 0 .lt 3 1 exBody) [[("s", bv true (10#32))]] =
-    some (.normal [[("s", bv true (13#32))]]) :=
-  C03_for_unroll_three [] 4 "i" exBody [[("s", bv true (10#32))]]
-    [[("i", loopVal 0)], [("s", bv true (10#32))]]
-    [[("i", loopVal 1)], [("s", bv true (11#32))]]
-    [[("i", loopVal 2)], [("s", bv true (13#32))]] rfl rfl rfl
+/-- The loop of testsuite/lang/for.mpcl: 5 iterations, then a downward loop
+`for i := 7; i >= 2; i -= 3` (2 iterations: 7, 4). -/
+example : Trip .lt 5 1 0 5 = true := by decide
+example : Trip .ge 2 (-3) 7 2 = true := by decide
+
+example : execS [] 17 (.for "i" 0 .lt 5 1 exBody) [[("s", bv true (0#32))]] =
+    some (.normal [[("s", bv true (10#32))]]) :=
+  C03_for_unroll [] 10 5 "i" .lt 0 5 1 exBody _ _ (by decide) rfl
+
+example : iterBody [] 16 "i" 1 exBody 0 5 [[("s", bv true (0#32))]] =
+    some (.normal [[("s", bv true (10#32))]]) :=
+  C03_for_unroll_conv [] 16 5 "i" .lt 0 5 1 exBody _ _ (by decide) rfl
 
 /-! ### The shipped `@Test` vectors hold in the model
 
@@ -416,6 +442,48 @@ theorem C03_shipped_vectors :
   refine ⟨?_, ?_, ?_, ?_, ?_, ?_, ?_, ?_, ?_, ?_, ?_, ?_, ?_, ?_, ?_, ?_, ?_, ?_, ?_, ?_, ?_, ?_, ?_, ?_,
     ?_, ?_, ?_, ?_, ?_, ?_⟩ <;> decide +kernel
 
+/-! ### SSA level
+
+`Model/MpclSsa.lean` `ssaEval` evaluates the real compiler's SSA step lists
+(tied three-way, on every generated program and input, to the source
+interpreter and to the compiled circuit by checks/C03.py).  On the
+straight-line fragment the two Lean semantics are PROVED to agree through a
+Lean model `Ssa.lower` of ssagen.go. -/
+
+open Mpc.Mpcl.Ssa in
+/-- Full statement (not proved): for every program `p` of the subset and every
+input `x`, `ssaEval (ssagen p) x = runRaw p x` where `ssagen` is the real
+AST -> SSA translation.  Proved here: the same with `Ssa.lower`, a Lean model
+of ssagen.go, for functions `func(params intN/uintN) { stmts; return es }` with
+`stmts ::= var x T = e | x = e` and `e ::= x | e + e | e - e | e & e | e | e |
+e ^ e | T(e)` (T(e) except intN -> wider uintM, where the real compiler's `mov`
+zero-extends: known deviation).  Missing: literals and constants, `* / % &^`,
+shifts, comparisons, booleans, if/for/calls, arrays, structs; the tie of
+`lower` to the real ssagen is differential only. -/
+theorem C03_ssa_lower_correct_partial (params : List (String × Ty)) (stmts : List Stmt) (es : List Expr)
+    (ins : List (Nat × Nat)) (steps : List SInstr) (h : lower params stmts es = some (ins, steps))
+    (args : List Nat) (hlen : args.length = params.length) :
+    ∃ r, ssaEval (Nat → Nat) ins steps args = some r ∧
+      ∃ f, runRaw [⟨params, es.length, stmts ++ [.ret es]⟩] f 0 args = some r :=
+  lower_correct_partial params stmts es ins steps h args hlen
+
+/-- `func(a int8, b uint4) (int8, uint4) { var x int8 = a + int8(b); x = x ^ a;
+return x - a, uint4(x) & b }` is in the fragment: `lower` succeeds (8 steps). -/
+def exFragParams : List (String × Ty) := [("a", .int 8), ("b", .uint 4)]
+def exFragStmts : List Stmt :=
+  [.decl "x" (.int 8) (some (.bin .add (.var "a") (.cast (.int 8) (.var "b")))),
+   .assign [⟨"x", []⟩] (.bin .bxor (.var "x") (.var "a"))]
+def exFragRet : List Expr :=
+  [.bin .sub (.var "x") (.var "a"), .bin .band (.cast (.uint 4) (.var "x")) (.var "b")]
+
+example : ((Ssa.lower exFragParams exFragStmts exFragRet).map fun r => (r.1, r.2.length)) =
+    some ([(0, 8), (1, 4)], 11) := by decide +kernel
+
+example : (Ssa.lower exFragParams exFragStmts exFragRet).bind
+      (fun r => Ssa.ssaEval (Array Nat) r.1 r.2 [0xf0, 0x9]) = some [(0x19, 8), (0x9, 4)] ∧
+    runRaw [⟨exFragParams, 2, exFragStmts ++ [.ret exFragRet]⟩] 20 0 [0xf0, 0x9] = some [(0x19, 8), (0x9, 4)] := by
+  refine ⟨?_, ?_⟩ <;> decide +kernel
+
 /-! ### Fuel is irrelevant
 
 The interpreter is total by fuel.  Once a run is defined its result is the
@@ -499,6 +567,10 @@ def wConstWiden : Prog := [⟨[("a", .int 40)], 2,
   [.ret [.bin .band (.var "a") (.lit (.int 40) 0xffffffff),
          .bin .band (.var "a") (.lit (.int 40) 0xffffffff)]]⟩]
 
+/-- `func main(a int40) (bool, int40) { return a > 3000000000, a / 4000000000 }` -/
+def wConstWidenCmp : Prog := [⟨[("a", .int 40)], 2,
+  [.ret [.bin .gt (.var "a") (.lit (.int 40) 3000000000), .bin .div (.var "a") (.lit (.int 40) 4000000000)]]⟩]
+
 /-- `func main(a uint32) (bool, bool) { return 100 < a, a > 100 }` -/
 def wConstLeft : Prog := [⟨[("a", .uint 32)], 2,
   [.ret [.bin .lt (.lit (.uint 32) 100) (.var "a"), .bin .gt (.var "a") (.lit (.uint 32) 100)]]⟩]
@@ -513,6 +585,10 @@ theorem C03_finding_witnesses :
     -- C03-const-signed-widening, a = 2^39 + 5: circuit returns (5, 2^39 + 5)
     runRaw wConstWiden 9 0 [0x8000000005] = some [(5, 40), (5, 40)] := by
   refine ⟨?_, ?_, ?_, ?_⟩ <;> decide +kernel
+
+/-- Guard case (agrees on /repo; `c03 witness` guard-literal-topbit-vs-wider-signed):
+a positive literal >= 2^31 against a wider signed operand stays positive. -/
+example : runRaw wConstWidenCmp 9 0 [5] = some [(0, 1), (0, 40)] := by decide +kernel
 
 /-- The four deviations repaired in /repo (`fix:` commits 4accfb7 named
 results zeroed, 3c18dfa constant bits from the constant's own value, dfc60cc
